@@ -317,55 +317,80 @@ def _rsv_is_zero(ctx, fn, expr):
 def rule_fragment_loops(ctx, rule_id="C01.3-fragment-and-chop-loops"):
     ctx.rule(rule_id)
     an = get_analysis(ctx)
-    # --- sendMessage -----------------------------------------------------------------
+    # --- sendMessage: decided cell-wise ------------------------------------------------
+    # over (payload length, text/binary, fragmentSize, autoFragmentSize, compression on/off, doNotCompress): the frames handed to sendFrame
+    # tile the wire payload in order; the first carries the message opcode (and RSV1 iff the message is compressed), the others opcode 0 and
+    # no RSV bit; FIN only on the last; a payload that fits into one fragment goes out as one frame
+    from ..core.tiny import Tiny, Sym, Buf
+    import itertools
     fn = ctx.program.func(f"{WSP}.sendMessage")
     ctx.analysed(fn)
-    loops = [n for n in walk_no_defs(fn.node) if isinstance(n, ast.While)]
-    ctx.require(len(loops) == 1, "sendMessage: fragmentation loop not found")
-    roles = _slice_loop(ctx, fn, loops[0], "payload", "")
-    g, mf, res = an.get(fn)
-    if roles:
-        S = roles["S"]
-        # step >= 1 on entry to the loop
-        loopnode = [n for n in g.stmt_nodes() if n.kind == "test" and n.ast is loops[0].test][0]
-        facts = mf.at(loopnode) or ()
-        ctx.ob("sendMessage: fragment size >= 1 when fragmenting", ("lt", ("e", S), ("c", 1), False) in facts,
-               "no `pfs < 1 -> raise` guard dominates the loop (zero step would never terminate)", fn.loc(loops[0]))
-        frames = [(n, c) for n in g.stmt_nodes() for c in node_calls(n) if self_call(c, "sendFrame") and n.lineno >= loops[0].lineno]
-        ctx.require(len(frames) == 2, "sendMessage: expected two sendFrame sites in the fragmentation loop")
-        for n, c in frames:
-            first = norm.is_truthy_known(mf.at(n), "first")
-            op = kwarg(c, "opcode")
-            finv = kwarg(c, "fin")
-            rsvv = kwarg(c, "rsv")
-            ctx.ob(f"sendMessage: {'first' if first else 'continuation'} fragment fin = done flag", finv is not None and norm.text(finv) == roles["done"],
-                   f"fin={norm.text(finv) if finv is not None else None}", fn.loc(c))
-            if first is True:
-                ctx.ob("sendMessage: first fragment carries the message opcode", op is not None and norm.text(op) == "opcode", f"opcode={norm.text(op) if op else None}", fn.loc(c))
-                ctx.ob("sendMessage: RSV1 on the first fragment iff compressed", _rsv_is_compress_bit(ctx, fn, rsvv),
-                       f"rsv={norm.text(rsvv) if rsvv is not None else None}", fn.loc(c))
-                ctx.ob("sendMessage: `first` cleared after the first fragment",
-                       g.always_followed_by(n, lambda x: x.kind == "stmt" and isinstance(x.ast, ast.Assign) and norm.text(x.ast.targets[0]) == "first" and norm.text(x.ast.value) == "False",
-                                            exits=[loopnode]), "first fragment flag not reset", fn.loc(c))
-            elif first is False:
-                ctx.ob("sendMessage: continuation fragments use opcode 0", op is not None and norm.key(op, res) == ("c", 0), f"opcode={norm.text(op) if op else None}", fn.loc(c))
-                ctx.ob("sendMessage: no RSV bits on continuation fragments", rsvv is None or _rsv_is_zero(ctx, fn, rsvv), f"rsv={norm.text(rsvv) if rsvv is not None else None}", fn.loc(c))
+    wsp = ctx.program.cls(WSP)
+    S_OPEN = ctx.program.class_const(wsp, "STATE_OPEN")
+    prm = fn.params()
+    body = [x for x in fn.node.body if not (isinstance(x, ast.Expr) and isinstance(x.value, ast.Constant))]
+    probs, cells = [], 0
+    try:
+        for n_, binary, frag, auto, comp, dnc in itertools.product((0, 1, 7, 8, 9, 23), (True, False), (None, 1, 8, 100), (0, 8), (False, True), (False, True)):
+            cells += 1
+            frames = []
+            wire = n_ + 3 if (comp and not dnc) else n_
+
+            def default(f_, a_, k_=None):
+                if f_ == "self.sendFrame":
+                    frames.append(dict(k_ or {}, _args=list(a_)))
+                    return None
+                if f_ == "type":
+                    return "bytes"
+                return Sym(f"<{f_}>")
+            pmc = Sym("pmce", methods={"start_compress_message": lambda: None, "compress_message_data": lambda d, w=wire: Buf(0, w - 2), "end_compress_message": lambda: Buf(0, 2)}) if comp else None
+            env = {prm[1]: Buf(0, n_), "isBinary": binary, "fragmentSize": frag, "sync": False, "doNotCompress": dnc, "bytes": "bytes",
+                   "self.state": S_OPEN, "WebSocketProtocol.STATE_OPEN": S_OPEN, "self.trackedTimings": None, "self._perMessageCompress": pmc,
+                   "self.maxMessagePayloadSize": 0, "self.autoFragmentSize": auto, "self.wasMaxMessagePayloadSizeExceeded": False, "self": Sym("p"),
+                   "self.trafficStats.outgoingWebSocketMessages": 0, "self.trafficStats.outgoingOctetsAppLevel": 0, "self.trafficStats.outgoingOctetsWebSocketLevel": 0}
+            t = Tiny(env, default_call=default, inline_self=lambda name: (ctx.program.lookup_method(wsp, name).node if name.startswith("_") and name not in ("_trigger",) and
+                                                                          ctx.program.lookup_method(wsp, name) is not None and name not in ("_fail_connection",) else None))
+            r = t.run(body)
+            cell = f"payload {n_} octets, {'binary' if binary else 'text'}, fragmentSize={frag}, autoFragmentSize={auto}, compression {'on' if comp else 'off'}, doNotCompress={dnc}"
+            if r[0] == "raise":
+                probs.append(f"{cell}: raises {str(r[1])[:60]}")
+                continue
+            compressed = comp and not dnc
+            pfs = frag if frag is not None else (auto if auto > 0 else None)
+            if pfs is None or wire <= pfs:
+                want = [(2 if binary else 1, (0, wire), True, 4 if compressed else 0)]
             else:
-                ctx.ob("sendMessage: fragment site under first/not-first test", False, "sendFrame in the loop not keyed on `first`", fn.loc(c))
-    # unfragmented path
-    single = [(n, c) for n in g.stmt_nodes() for c in node_calls(n) if self_call(c, "sendFrame") and n.lineno < loops[0].lineno]
-    ctx.require(len(single) == 1, "sendMessage: unfragmented sendFrame site not found")
-    n, c = single[0]
-    ok = norm.text(kwarg(c, "opcode")) == "opcode" and norm.text(kwarg(c, "payload")) == "payload" and kwarg(c, "fin") is None and \
-        _rsv_is_compress_bit(ctx, fn, kwarg(c, "rsv"))
-    ctx.ob("sendMessage: unfragmented frame = (opcode, whole payload, FIN default, RSV1 iff compressed)", ok, stmt_key(c), fn.loc(c))
-    opc = [s for s in walk_no_defs(fn.node) if _is_assign(s, "opcode")]
-    okop = len(opc) == 2
-    for s in opc:
-        nd = [x for x in g.stmt_nodes() if x.ast is s][0]
-        b = norm.is_truthy_known(mf.at(nd), "isBinary")
-        okop = okop and ((b is True and s.value.value == 2) or (b is False and s.value.value == 1))
-    ctx.ob("sendMessage: opcode 2 iff isBinary else 1", okop, "opcode selection changed", fn.loc())
+                want = []
+                i = 0
+                while True:
+                    j = min(i + pfs, wire)
+                    last = j >= wire
+                    want.append(((2 if binary else 1) if i == 0 else 0, (i, j), last, (4 if compressed else 0) if i == 0 else 0))
+                    if last:
+                        break
+                    i = j
+            got = []
+            for f in frames:
+                pl = f.get("payload", f["_args"][1] if len(f["_args"]) > 1 else Buf(0, 0))
+                op = f.get("opcode", f["_args"][0] if f["_args"] else None)
+                if isinstance(pl, Buf) and compressed:
+                    span = (pl.lo, pl.hi) if len(frames) > 1 else (0, len(pl))
+                else:
+                    span = (pl.lo, pl.hi) if isinstance(pl, Buf) and len(pl) else ((0, 0) if isinstance(pl, Buf) else None)
+                got.append((op, span, bool(f.get("fin", True)), f.get("rsv", 0) or 0))
+            # zero-length slices carry no position: compare lengths there
+            def norm_(x):
+                return [(o, (sp[1] - sp[0]) if sp is not None and sp[1] == sp[0] else sp, fi, rs) for o, sp, fi, rs in x]
+            # a payload that is an exact multiple of the fragment size may end with an empty FIN frame (also a valid tiling)
+            alt = None
+            if len(want) > 1 and want[-1][1][1] - want[-1][1][0] == pfs:
+                alt = want[:-1] + [(want[-1][0], want[-1][1], False, want[-1][3]), (0, (wire, wire), True, 0)]
+            if norm_(got) != norm_(want) and (alt is None or norm_(got) != norm_(alt)):
+                probs.append(f"{cell}: frames (opcode, payload span, FIN, RSV) = {got}, expected {want}")
+        ctx.ob(f"sendMessage: frames tile the wire payload in order; opcode and RSV1 on the first frame only, FIN on the last only; one frame when it fits [{cells} cells]",
+               not probs, "; ".join(probs[:2]), fn.loc())
+    except AnalysisError as e:
+        raise AnalysisError(f"[{rule_id}] sendMessage outside the modelled subset: {e}")
     # --- sendData chop loop ---------------------------------------------------------------
     fn = ctx.program.func(f"{WSP}.sendData")
     ctx.analysed(fn)
